@@ -28,6 +28,8 @@ func runC17(c *Ctx) {
 	R.Rule("C17.R3", "switch-like options reflect their most recent setting: each boolean/func setter stores its parameter unconditionally; AllowURLSchemes stores the unrestricted entry for every scheme unconditionally; AllowElementsContent deletes unconditionally; RequireSandboxOnIFrame installs a fresh set")
 	R.Rule("C17.R4", "instances are independent: only freshly made maps/slices (or append results on the policy's own field) are stored into a policy's table fields; shipped constructors return a new NewPolicy(); no package-level cache (C13.R3)")
 	R.Rule("C17.R5", "rules accumulate at sanitise time too: where the rules of several matching element patterns are merged into the per-call table, each update is m[k] = append(m[k], rules...); with that, order independence follows from R2 + any-match reads (C07.R1) + order-insensitive map iteration (C13.R4)")
+	R.Rule("C17.R13", "the number of rules does not show in the output (= C10.R12, cited): a declaration is kept at most once however many registered rules accept it — a rule given twice, or two rules accepting the same value, must not change the result")
+	declarationKeptOnce(c, "C17.R13", "the same set of rules gives different output depending on how often (and in which order) a rule was registered")
 	R.Rule("C17.R12", "an adding and a removing setter are each other's undo: where one exported method of *Policy adds keys to a table and another deletes them (SkipElementsContent / AllowElementsContent), both update exactly the same tables")
 	pairedSettersAgree(c, "C17.R12")
 	R.Rule("C17.R11", "each rule gets a builder of its own: every method of *Policy that returns a builder returns one allocated by that call (not one kept in the Policy, a pool or a package variable)")
